@@ -36,6 +36,19 @@ fn gen_small_header(g: &mut Gen) -> Header {
     if g.ratio(1, 4) {
         return h;
     }
+    if g.ratio(1, 25) {
+        // a header whose *encoded map* has a length on a CBOR length-class boundary: {4: kid} takes
+        // 2 + head(n) + n bytes
+        let target = *g.pick(&[23usize, 24, 25, 255, 256, 257, 65535, 65536, 65537]);
+        let n = match target {
+            0..=25 => target - 3,
+            26..=258 => target - 4,
+            259..=65538 => target - 5,
+            _ => target - 7,
+        };
+        h.key_id = (0..n).map(|i| (i * 7 + 1) as u8).collect();
+        return h;
+    }
     if g.bool() {
         // any registered algorithm (the whole IANA table), a private-use number or a text name
         h.alg = Some(match g.weighted(&[4, 1, 1, 3]) {
